@@ -17,7 +17,7 @@ func cnfLiteral(name string, c *CNF, g *Grammar) string {
 	}
 	sb.WriteString("},\n\tKinds: []int{")
 	for _, t := range g.Tokens {
-		sb.WriteString(t + ", ")
+		sb.WriteString(g.TN(t) + ", ")
 	}
 	sb.WriteString("-1},\n}\n\n")
 	return sb.String()
@@ -28,7 +28,7 @@ func termLiteral(g *Grammar, t *Term) string {
 	card := map[string]string{"": "ref.One", "?": "ref.Opt", "*": "ref.Star", "+": "ref.Plus", "*!": "ref.StarF"}[t.Card]
 	switch t.Kind {
 	case TTok:
-		return fmt.Sprintf("{Kind: ref.Tok, ID: %s, Card: %s}", t.Name, card)
+		return fmt.Sprintf("{Kind: ref.Tok, ID: %s, Card: %s}", g.TN(t.Name), card)
 	case TNT:
 		return fmt.Sprintf("{Kind: ref.NT, ID: %d, Card: %s}", g.RuleIndex(t.Name), card)
 	case TErr:
@@ -51,11 +51,16 @@ func (g *Grammar) HarnessGo(pkg string) string {
 	sb.WriteString(cnfLiteral("hCNFErr", plain.ToCNF(), g))
 	sb.WriteString("var hTokKinds = []int{")
 	for _, t := range g.Tokens {
-		sb.WriteString(t + ", ")
+		sb.WriteString(g.TN(t) + ", ")
 	}
 	sb.WriteString("}\n\nvar hTokNames = []string{")
 	for _, t := range g.Tokens {
 		fmt.Fprintf(&sb, "%q, ", t)
+	}
+	// tokens of parser items are single literals: _TokenToString shows the literal
+	sb.WriteString("}\n\nvar hTokShow = []string{")
+	for _, t := range g.Tokens {
+		fmt.Fprintf(&sb, "%q, ", g.TN(t))
 	}
 	sb.WriteString("}\n\n")
 	// grammar for the derivation-tree checker
@@ -242,6 +247,80 @@ func H_Tree() {
 	msg := ref.CheckTree(hG, hLog(p), pin, dis, hBounds(p), hOnBounds)
 	vrt.Observe("tree", msg)
 	vrt.Assert(msg == "", "derivation-tree")
+}
+
+// H_FindUnit (C10): the generated _Find on an arbitrary well-formed table:
+// rows of (key, value) pairs behind an index; symbolic cells, row and key.
+func H_FindUnit() {
+	rows := vrt.Param("rows", 2)
+	pairs := vrt.Param("pairs", 2)
+	// layout: [index cells][row: count, (k, v)*]
+	table := make([]int32, rows+rows*(1+2*pairs))
+	keys := make([][]int32, rows)
+	vals := make([][]int32, rows)
+	off := rows
+	for y := 0; y < rows; y++ {
+		table[y] = int32(off)
+		table[off] = int32(2 * pairs)
+		keys[y] = make([]int32, pairs)
+		vals[y] = make([]int32, pairs)
+		for j := 0; j < pairs; j++ {
+			keys[y][j] = vrt.Int32(vrt.Name(vrt.Name("k", y)+"_", j))
+			vals[y][j] = vrt.Int32(vrt.Name(vrt.Name("v", y)+"_", j))
+			table[off+1+2*j] = keys[y][j]
+			table[off+2+2*j] = vals[y][j]
+		}
+		off += 1 + 2*pairs
+	}
+	ysym := vrt.Int("y")
+	vrt.Assume(vrt.And(ysym >= 0, ysym < rows))
+	y := vrt.Concretize(ysym)
+	x := vrt.Int32("x")
+	got, ok := _Find(table, int32(y), x)
+	// reference: value of the first pair keyed x
+	want, found := int32(0), false
+	for j := pairs - 1; j >= 0; j-- {
+		hit := keys[y][j] == x
+		want = vrt.IteInt32(hit, vals[y][j], want)
+		found = vrt.Or(found, hit)
+	}
+	vrt.Assert(vrt.Iff(ok, found), "find-found")
+	vrt.Assert(vrt.Implies(found, got == want), "find-value")
+	if ok {
+		vrt.Reach("found")
+	} else {
+		vrt.Reach("not-found")
+		vrt.Assert(got == 0, "find-zero")
+	}
+}
+
+// H_TokNumbers (C19): EOF = 0, ERROR = 1, the others dense in declaration order.
+func H_TokNumbers() {
+	vrt.Assert(EOF == 0, "eof-is-0")
+	vrt.Assert(ERROR == 1, "error-is-1")
+	for i, k := range hTokKinds {
+		vrt.Assert(k == i+2, "dense-declaration-order")
+	}
+	t := vrt.Int("t")
+	s := _TokenToString(t)
+	want := "???"
+	if t == EOF {
+		want = "EOF"
+	}
+	if t == ERROR {
+		want = "ERROR"
+	}
+	for i, k := range hTokKinds {
+		if t == k {
+			want = hTokShow[i]
+		}
+	}
+	vrt.Assert(s == want, "token-to-string")
+	if s == "???" {
+		vrt.Reach("unknown")
+	} else {
+		vrt.Reach("named")
+	}
 }
 
 // H_Prec (C05): the grouping equals that of a precedence-climbing parser.
